@@ -755,8 +755,19 @@ func checkMatchers(c *matchCase, in []byte) (res result) {
 func TestPropMatchers(t *testing.T) {
 	ev.Check(t, func(rt *rapid.T) {
 		var in []byte
-		kind := rapid.SampledFrom([]string{"mutated-frame", "mutated-frame", "mutated-frame", "random", "text", "h2"}).Draw(rt, "kind")
+		kind := rapid.SampledFrom([]string{"mutated-frame", "mutated-frame", "mutated-frame", "frame-prefix", "frame-prefix", "random", "text", "h2"}).Draw(rt, "kind")
 		switch kind {
+		case "frame-prefix":
+			// what a matcher sees when the first read brings only the beginning of a valid frame: every length from
+			// nothing up to a little beyond every codec's fixed header
+			p := rapid.SampledFrom(codec.Protocols).Draw(rt, "proto")
+			fr := codec.GenFrame(p, false).Draw(rt, "frame").Bytes
+			k := rapid.IntRange(0, min(len(fr), 40)).Draw(rt, "prefixLen")
+			in = append([]byte(nil), fr[:k]...)
+			kind += ":" + p
+			if k <= 24 {
+				ev.Class(partMatchers, fmt.Sprintf("frame-prefix:%s:len<=24", p))
+			}
 		case "mutated-frame":
 			p := rapid.SampledFrom(codec.Protocols).Draw(rt, "proto")
 			in, _, _ = mutate(rt, codec.GenFrame(p, false).Draw(rt, "frame"), 0)
